@@ -384,6 +384,24 @@ def validate(data):
                 if r["mode"] != "External":
                     if r["resolved"] not in pkg.nameset:
                         P("dangling-rel", n, "relationship %s -> %s does not exist" % (rid, r["target"]))
+    # every attribute in the relationships namespace (r:id, r:embed, r:link, r:pict ...) of every other part names a
+    # relationship that the part's own .rels declares (worksheets and the workbook are checked in detail below)
+    for n in pkg.names:
+        if not _is_xml_part(n) or n.endswith(".rels") or n.startswith("xl/worksheets/sheet") or n == wbk.wb_path.lstrip("/") or n == "[Content_Types].xml":
+            continue
+        root = pkg.xml(n)
+        if root is None:
+            continue
+        used = []
+        for e in root.iter():
+            for k, v in e.attrib.items():
+                if k.startswith(R) and v:
+                    used.append((e.tag.split('}')[-1], k[len(R):], v))
+        if used:
+            _, prels = pkg.rels_of(n)
+            for tag, attr, v in used:
+                if v not in prels:
+                    P("rid-undeclared", n, "<%s> uses r:%s %r which the part's relationships do not declare" % (tag, attr, v))
     # workbook level
     names_seen = set()
     ids_seen = set()
